@@ -18,7 +18,7 @@ LEVEL = "model_checking"
 RULE = ("every metadata-free tree of the stated strata (block-inside-inline included) x every "
         "subset of <= K gaps of its child lists (incl. empty child lists of void/empty tags, first, "
         "last, between siblings) x fill pattern {one MetadataNode, one HTMLDependency, dependency+"
-        "MetadataNode in a row}; rendered via Tag/TagList.get_html_string (two (indent,eol)) and "
+        "a user metadata node holding a lock in a row}; rendered via Tag/TagList.get_html_string (two (indent,eol)) and "
         "render(). Non-trivial = >= 1 node inserted into a list with >= 1 visible sibling. "
         "Distinct by construction (tree index x gap subset x fill).")
 ASSUMPTIONS = ["differential oracle: the metadata-free tree's own output is the expected output"]
@@ -54,6 +54,8 @@ def insert_at(spec, chosen, fill, counter):
                     if f == "D":
                         counter[0] += 1
                         new.append(["D", f"dep{counter[0]}", "1.0", {"script": {"src": "x.js"}, "head": "<b>hd</b>"}])
+                    elif f == "ML":
+                        new.append(["ML"])
                     else:
                         new.append(["M"])
             if pos < len(kids):
@@ -62,7 +64,7 @@ def insert_at(spec, chosen, fill, counter):
     return rec(spec, ())
 
 
-FILLS = [["M"], ["D"], ["D", "M"]]
+FILLS = [["M"], ["D"], ["D", "ML"]]
 
 
 def make_fn(maxk, toplist=False):
